@@ -616,7 +616,7 @@ impl<'a> Gen<'a> {
 
     /// Variable that exists in every generated data object (so output does not abort).
     fn var_safe(&mut self) -> Expr {
-        let v = match self.rng.below(14) {
+        let v = match self.rng.below(16) {
             0 => "arr".to_string(),
             1 => "arr[0]".to_string(),
             2 => "arr.first".to_string(),
@@ -627,6 +627,7 @@ impl<'a> Gen<'a> {
             7 => "obj['k']".to_string(),
             8 => "objs[0].k".to_string(),
             9 => "objs".to_string(),
+            10 => "when".to_string(),
             _ => self.name(),
         };
         Expr::Var(v)
@@ -679,7 +680,7 @@ impl<'a> Gen<'a> {
             25 => f("url_encode", vec![]),
             26 => f("newline_to_br", vec![]),
             27 => f("sort", vec![]),
-            28 => f("uniq", vec![]),
+            28 => f("date", vec![Expr::Str(["%Y-%m-%d", "%d %b %Y", "%H:%M"][self.rng.below(3)].into())]),
             _ => f("compact", vec![]),
         }
     }
@@ -714,7 +715,7 @@ impl<'a> Gen<'a> {
             return None;
         }
         // dynamic name through data (`pname` holds the name of partial 0 / `pn1` of partial 1)
-        if self.cfg.allow_dynamic_names && self.rng.chance(1, 6) {
+        if self.cfg.allow_dynamic_names && self.rng.chance(1, 4) {
             return Some(Expr::Var(if self.rng.chance(1, 2) { "pname".into() } else { "pn1".into() }));
         }
         let use_absent = na > 0 && (np == 0 || self.rng.chance(1, 6));
@@ -906,7 +907,7 @@ impl<'a> Gen<'a> {
                     self.restricted -= 1;
                     let mut args = self.args();
                     if self.rng.chance(3, 4) {
-                        for n in IMMUTABLE.iter().chain(["arr", "obj", "objs", "s", "zero"].iter()) {
+                        for n in IMMUTABLE.iter().chain(["arr", "obj", "objs", "s", "zero", "when"].iter()) {
                             if !args.iter().any(|(k, _)| k == n) {
                                 args.push((n.to_string(), Expr::Var(n.to_string())));
                             }
@@ -960,6 +961,9 @@ impl<'a> Gen<'a> {
             4 => "{% increment c %}".to_string(),
             _ => format!("{{% capture d %}}{body}{{% endcapture %}}{{{{ d }}}}"),
         };
+        if self.rng.chance(1, 10) {
+            return "{{ when | date: '%Y-%m-%d' }}".to_string();
+        }
         if self.rng.chance(1, 6) {
             // a value computed from DATA through a filter argument on a literal entry, stored and
             // printed: looks constant to a careless optimiser, is not
@@ -1054,6 +1058,8 @@ pub fn gen_data(rng: &mut Rng, partial_names: &[String], holes: bool) -> Dv {
     o.push(("obj".into(), Dv::Object(vec![("k".into(), scalar_dv(rng))])));
     o.push(("objs".into(), Dv::Array((0..1 + rng.below(3)).map(|_| Dv::Object(vec![("k".into(), scalar_dv(rng))])).collect())));
     o.push(("s".into(), Dv::str(STRS[rng.below(STRS.len())])));
+    // a date in several spellings (only some of which the date parser accepts): never "now"/"today"
+    o.push(("when".into(), Dv::str(["13 Jun 2016 02:30:00 +0300", "13 jun 2016 02:30:00 +0300", " 13 Jun 2016 02:30:00 +0300", "2016-06-13 02:30:00 +0300", "2016-06-13"][rng.below(5)])));
     o.push(("zero".into(), if rng.chance(1, 2) { Dv::Int(0) } else { Dv::Int(1 + rng.below(3) as i64) }));
     if !holes || rng.chance(1, 2) {
         o.push(("boom".into(), Dv::str("ok")));
@@ -1061,8 +1067,16 @@ pub fn gen_data(rng: &mut Rng, partial_names: &[String], holes: bool) -> Dv {
     let pn = |rng: &mut Rng| {
         if partial_names.is_empty() {
             Dv::str("nopartial")
+        } else if rng.chance(1, 10) {
+            Dv::str("gone")
         } else {
-            Dv::str(&partial_names[rng.below(partial_names.len())])
+            // the stored name, or the name a template would use (`x` for `x.liquid`)
+            let n = &partial_names[rng.below(partial_names.len())];
+            if rng.chance(1, 2) {
+                Dv::str(&invocation_name(n))
+            } else {
+                Dv::str(n)
+            }
         }
     };
     o.push(("pname".into(), pn(rng)));
@@ -1146,10 +1160,17 @@ pub fn gen_partials(rng: &mut Rng, base: &GenCfg, corrupt_per_8: u32, absent_per
         }
     }
     // names the stores must match verbatim: a directory-like name with `/` or with `\`
-    if n > 0 && rng.chance(1, 5) {
-        let i = rng.below(n);
-        if !names[i].starts_with('x') {
-            names[i] = ["d/p", "d\\p", "My Partial", "p-1", "dir/sub/p.html"][rng.below(5)].to_string();
+    if n > 0 && rng.chance(1, 3) {
+        // (several at once, in mixed case: stores that order or normalise names must still match
+        // them verbatim)
+        let specials = ["d/p", "d\\p", "My Partial", "p-1", "dir/sub/p.html", "Footer", "Zeta", "alpha", "body"];
+        let how_many = 1 + rng.below(3.min(n));
+        for _ in 0..how_many {
+            let i = rng.below(n);
+            let cand = specials[rng.below(specials.len())].to_string();
+            if !names[i].starts_with('x') && !names.contains(&cand) {
+                names[i] = cand;
+            }
         }
     }
     let mut absent = vec![];
